@@ -157,7 +157,9 @@ func (r *schedRun) eidx(e interface{}) int {
 	return i
 }
 
-func schedKeyURI(k int) string { return fmt.Sprintf("/s/%d", k) }
+// the URIs carry a percent-escape and a plus sign: the cache key is built from the raw request URI, and a purge
+// (direct or through the admin endpoint's query parameter) has to name exactly that key
+func schedKeyURI(k int) string { return fmt.Sprintf("/s/%d?q=a%%2Fb+c", k) }
 
 func mutateRecord(cr *rng, data []byte) ([]byte, string) {
 	d := append([]byte(nil), data...)
